@@ -522,7 +522,7 @@ func c18Rand(c *Ctx) {
 					})
 				}
 			}
-			ok := len(vals) > 0
+			ok = len(vals) > 0
 			for _, v := range vals {
 				if n, known := constSliceLen(v); !known || n <= 0 {
 					ok = false
